@@ -1,4 +1,5 @@
 import Req.Pool.H1Pool
+import Req.Pool.H1PoolDial
 /-!
 Lane-level composite operations over the `H1Pool` micro-ops: what ONE goroutine driving the
 real `Transport` methods does per call (e.g. `wantConn.cancel` = the `cancel` section followed by
@@ -77,6 +78,8 @@ def showPut : PutErr → String
 
 def showBool (b : Bool) : String := if b then "1" else "0"
 
+def sortNat' (l : List Nat) : List Nat := l.mergeSort (· ≤ ·)
+
 /-- One composite op: new lane state and the canonical return value. -/
 def mstep (cfg : Cfg) (l : LSt) : MOp → LSt × String
   | .newWant w k =>
@@ -152,8 +155,16 @@ def mstep (cfg : Cfg) (l : LSt) : MOp → LSt × String
       ({ l with s := r.1 }, "-")
   | .closeIdle =>
     let victims := listedIdle l.s
+    -- r5: the dials whose context the call cancels (`H1PoolDial.cancelTargets`: in
+    -- dialsInProgress, goroutine alive, want no longer waiting); those parked in the dial hook
+    -- fail at once — the lane lets them go one at a time in ascending want order:
+    -- `dialFail` (tryDeliver finds the want done, slot given back / handed on) and `dialEnd`
+    let cancelled := sortNat' ((Req.Pool.H1PoolDial.cancelTargets l.s).filter fun w => l.hooked.contains w)
     let s1 := st1 cfg l.s .closeIdleConnections
-    ({ l with s := victims.foldl (fun s c => st1 cfg s (.closeT c)) s1 }, "-")
+    let l1 : LSt := { l with s := victims.foldl (fun s c => st1 cfg s (.closeT c)) s1 }
+    (cancelled.foldl (fun (l : LSt) w =>
+        settle cfg 64 { l with s := st1 cfg (st1 cfg l.s (.dialFail w)) (.dialEnd w),
+                               hooked := l.hooked.erase w }) l1, "-")
 
 def joinNat (l : List Nat) : String := ",".intercalate (l.map toString)
 
